@@ -228,9 +228,19 @@ Definition stmt_exec_bumps_nonce_by_one : Prop :=
     nonce s' (ct_signer c) <= U32_MAX /\
     (forall x, x <> ct_signer c -> nonce s' x = nonce s x).
 
+(** Every failure, fatal ([e] a plain class) or non-fatal ([e = ENonFatal _]). *)
 Definition stmt_failed_tx_is_identity : Prop :=
   forall s c s' e,
     exec_tx s c = (s', OutErr e) -> s' = s.
+
+(** The non-fatal failure spelled out: a transaction that stays in the block with an error
+    result leaves no trace either; it exists only once Blackburn is active and only for a
+    transaction containing a (failing) IbcRelay action. *)
+Definition stmt_nonfatal_failure_is_identity : Prop :=
+  forall s c s' e,
+    exec_tx s c = (s', OutErr (ENonFatal e)) ->
+    s' = s /\ blackburn s = true /\
+    exists k cap, In (AIbcRelayFailing k, cap) (ct_actions c).
 
 (** In any history of the working state, two executions with the same signer and nonce cannot
     both succeed (in particular no transaction takes effect twice). *)
